@@ -29,6 +29,7 @@ var TaskHandlers = map[string]func(raw []byte) interface{}{
 	"expand": xstate.HandleExpand,
 	"probe":  xstate.HandleProbe,
 	"twin":   xstate.HandleTwin,
+	"obs":    xstate.HandleObs,
 }
 
 // HandleTask dispatches a child task by its "type" member.
